@@ -63,7 +63,7 @@ def twosided_2_onesided(data):
 
     ::
 
-        >>> twosided_2_onesided([10, 2,3,3,2,8])
+        >>> twosided_2_onesided([10, 2,3,8,3,2])
         array([ 10.,   4.,   6.,   8.])
 
     """
@@ -71,7 +71,7 @@ def twosided_2_onesided(data):
     N = len(data)
     psd = np.array(data[0:N//2+1]) * 2.
     psd[0] /= 2.
-    psd[-1] = data[-1]
+    psd[-1] /= 2.
     return psd
 
 
@@ -85,13 +85,13 @@ def onesided_2_twosided(data):
 
     ::
 
-        >>> twosided_2_onesided([10, 4, 6, 8])
-        array([ 10.,   2.,   3.,   3., 2., 8.])
+        >>> onesided_2_twosided([10, 4, 6, 8])
+        array([ 10.,   2.,   3.,   8., 3., 2.])
 
     """
-    psd = np.concatenate((data[0:-1], cshift(data[-1:0:-1], -1)))/2.
+    psd = np.concatenate((data[0:-1], data[-1:0:-1]))/2.
     psd[0] *= 2.
-    psd[-1] *= 2.
+    psd[len(data)-1] *= 2.
     return psd
 
 
@@ -99,15 +99,14 @@ def twosided_2_centerdc(data):
     """Convert a two-sided PSD to a center-dc PSD"""
     N = len(data)
     # could us int() or // in python 3
-    newpsd = np.concatenate((cshift(data[N//2:], 1), data[0:N//2]))
-    newpsd[0] = data[-1]
+    newpsd = np.concatenate((data[N-N//2:], data[0:N-N//2]))
     return newpsd
 
 
 def centerdc_2_twosided(data):
     """Convert a center-dc PSD to a twosided PSD"""
     N = len(data)
-    newpsd = np.concatenate((data[N//2:], (cshift(data[0:N//2], -1))))
+    newpsd = np.concatenate((data[N//2:], data[0:N//2]))
     return newpsd
 
 
